@@ -24,7 +24,10 @@ type selfState struct {
 	done int
 }
 
-func (s *selfState) outcome() string { sort.Strings(s.out); return fmt.Sprintf("x=%d %s", s.x, strings.Join(s.out, ",")) }
+func (s *selfState) outcome() string {
+	sort.Strings(s.out)
+	return fmt.Sprintf("x=%d %s", s.x, strings.Join(s.out, ","))
+}
 
 func plainCheck(state any, e *vsched.Exec) (string, []explore.Finding) {
 	s := state.(*selfState)
@@ -83,7 +86,11 @@ func selfScenarios() []*explore.Scenario {
 	add("buffered", func(s *selfState) {
 		ch := make(chan int, 1)
 		vsched.Go("snd", func() { vsched.Send("s", ch, 1); vsched.Send("s", ch, 2); s.out = append(s.out, "sent2") })
-		vsched.Go("rcv", func() { a := vsched.Recv("r", ch); b := vsched.Recv("r", ch); s.out = append(s.out, fmt.Sprint("got", a, b)) })
+		vsched.Go("rcv", func() {
+			a := vsched.Recv("r", ch)
+			b := vsched.Recv("r", ch)
+			s.out = append(s.out, fmt.Sprint("got", a, b))
+		})
 	})
 	add("closed", func(s *selfState) {
 		ch := make(chan int)
@@ -113,7 +120,10 @@ func selfScenarios() []*explore.Scenario {
 	add("once", func(s *selfState) {
 		var o vsync.Once
 		for i := 0; i < 3; i++ {
-			vsched.Go("o", func() { o.Do(func() { vsched.Yield("in-once", 0); s.x++ }); s.out = append(s.out, fmt.Sprint("saw", s.x)) })
+			vsched.Go("o", func() {
+				o.Do(func() { vsched.Yield("in-once", 0); s.x++ })
+				s.out = append(s.out, fmt.Sprint("saw", s.x))
+			})
 		}
 	})
 	add("selectsend", func(s *selfState) {
@@ -226,6 +236,22 @@ func selftest(c *core.Ctx) {
 	if len(st.Outcomes) != 6 {
 		fail("choose@d2", "%d outcomes, want 6", len(st.Outcomes))
 	}
+	// the happens-before cache must not change the set of outcomes
+	for _, name := range []string{"k2[t1 t1]async", "k2[t1 w0.t1]sync"} {
+		sc := Lookup("C06", name)
+		if sc == nil {
+			fail("cache", "scenario %s missing", name)
+			continue
+		}
+		a := explore.Local(sc, explore.Options{PBound: 2, NoCache: true, Deadline: c.Deadline}, nil)
+		b := explore.Local(sc, explore.Options{PBound: 2, Deadline: c.Deadline}, nil)
+		c.Count(a.Execs+b.Execs, b.States, a.Steps+b.Steps, a.Execs+b.Execs-b.Pruned)
+		ka, kb := keys(a.Outcomes), keys(b.Outcomes)
+		if strings.Join(ka, "|") != strings.Join(kb, "|") || len(a.Viol) != len(b.Viol) || !a.Complete || !b.Complete {
+			fail("cache", "%s: uncached %d executions outcomes %q; cached %d executions (%d pruned) outcomes %q", name, a.Execs, ka, b.Execs, b.Pruned, kb)
+		}
+		c.Set("cache_check "+name, fmt.Sprintf("uncached %d executions, cached %d (%d cut short), same %d outcomes", a.Execs, b.Execs, b.Pruned, len(ka)))
+	}
 	// determinism: replay one schedule twice
 	sc := Lookup("SELFTEST", "selectsend")
 	e1, _, _ := explore.Replay(sc, []int{1, 0, 1})
@@ -235,4 +261,13 @@ func selftest(c *core.Ctx) {
 	}
 	c.Sample(map[string]any{"scenario": "selectsend", "choices": []int{1, 0, 1}, "trace": e1.Trace})
 	c.Set("determinism_check", "ok")
+}
+
+func keys(m map[string]int64) []string {
+	var out []string
+	for k := range m {
+		out = append(out, k)
+	}
+	sort.Strings(out)
+	return out
 }
